@@ -119,6 +119,10 @@ var c01Queries = []c01Query{
 			return expRow{[]octosql.Value{r[1]}, zzverif.And(!isNull(r[0]), zzverif.And(!isNull(r[1]), r[1].Int >= 0))}
 		})
 	}},
+	// 14: the cut falls between duplicates already with two rows
+	/* 14 */ {sql: "SELECT t.a FROM t.sym t ORDER BY t.a LIMIT 1", sortCols: []int{0}, sortDirs: []int{1}, expected: func(rows [][]octosql.Value) []expRow {
+		return rankLimit(rows, func(r []octosql.Value) octosql.Value { return r[0] }, 1, func(r []octosql.Value) []octosql.Value { return []octosql.Value{r[0]} })
+	}},
 }
 
 func expCount(exp []expRow, x []octosql.Value, distinct bool) int {
